@@ -35,6 +35,22 @@ Theorem status_default_200 : forall ops,
 Proof. exact status_default_200_l. Qed.
 Print Assumptions status_default_200.
 
+(* "every header set before that point [reaches the client]": a header set by a call before the
+   commit point is present in what the client receives (with the value of the last call that set
+   it — that finer statement is wire_is_spec) *)
+Theorem header_reaches_client : forall ops k v, In (OHeader k v) (before_commit ops) ->
+  hget (canon k) (snd (fst (client (run ops)))) <> [].
+Proof. exact header_reaches_client_l. Qed.
+Print Assumptions header_reaches_client.
+
+(* one request through middlewares + handler (+ onError) is ONE operation sequence (Model.server_ops),
+   so every theorem above applies to it; in particular the connection sees at most one commit *)
+Theorem server_commit_at_most_once : forall mws h err, (whCalls (under (serve mws h err)) <= 1)%nat.
+Proof. intros. apply commit_at_most_once_l. Qed.
+Theorem server_wire_is_spec : forall mws h err, client (serve mws h err) = spec (server_ops mws h err).
+Proof. intros. apply wire_is_spec_l. Qed.
+Print Assumptions server_commit_at_most_once.
+
 (* "calls after the commit cannot alter status or already-sent headers" *)
 Theorem post_commit_inert : forall a b, headerSent (run_raw a) = true ->
   wire (under (run (a ++ b))) = wire (under (run_raw a)) /\
